@@ -8,6 +8,7 @@ import (
 	"go/token"
 	"go/types"
 	"os"
+	"runtime/debug"
 	"strings"
 
 	"golang.org/x/tools/go/ssa"
@@ -16,7 +17,11 @@ import (
 type Inconclusive struct{ Msg string }
 
 func inconclusive(format string, a ...interface{}) {
-	panic(Inconclusive{fmt.Sprintf(format, a...)})
+	msg := fmt.Sprintf(format, a...)
+	if os.Getenv("VERIF_DEBUG") != "" {
+		msg += "\n" + string(debug.Stack())
+	}
+	panic(Inconclusive{msg})
 }
 
 const (
@@ -26,9 +31,11 @@ const (
 )
 
 type loopCtr struct {
-	h    *ssa.BasicBlock
-	iter int // iterations on this path (kept across transitions for loops that may allocate)
-	unw  int // iterations within the current transition (unwinding bound)
+	h     *ssa.BasicBlock
+	iter  int  // iterations within the current transition (ordering / merging inside a transition)
+	unw   int  // iterations within the current transition (unwinding bound)
+	epoch int  // number of completed iterations on this path that named an object (kept across transitions)
+	dirty bool // the current iteration has named an object
 }
 
 type DeferRec struct {
@@ -278,7 +285,7 @@ func (e *Engine) mergeKey(c *Config) string {
 	for _, f := range c.stack {
 		fmt.Fprintf(&sb, "%p:%d:%d:%d:%v", f.fn, f.blk.Index, f.idx, f.mode, f.deferred)
 		for _, l := range f.loops {
-			fmt.Fprintf(&sb, "L%d.%d", l.h.Index, l.iter)
+			fmt.Fprintf(&sb, "L%d.%d.%d", l.h.Index, l.iter, l.epoch)
 		}
 		for _, d := range f.defers {
 			fmt.Fprintf(&sb, "D%d", d.Pos)
@@ -304,7 +311,7 @@ func (e *Engine) siteKey(c *Config) string {
 	for _, f := range c.stack {
 		fmt.Fprintf(&sb, "%s.%d.%d", f.fn.String(), f.blk.Index, f.idx)
 		for _, l := range f.loops {
-			fmt.Fprintf(&sb, "~%d.%d", l.h.Index, l.iter)
+			fmt.Fprintf(&sb, "~%d.%d.%d", l.h.Index, l.iter, l.epoch)
 		}
 		sb.WriteString("/")
 	}
@@ -312,7 +319,13 @@ func (e *Engine) siteKey(c *Config) string {
 }
 
 func (e *Engine) dynName(c *Config, kind string) string {
-	return fmt.Sprintf("%s@%s[g%d]", kind, e.siteKey(c), c.gor.idx)
+	n := fmt.Sprintf("%s@%s[g%d]", kind, e.siteKey(c), c.gor.idx)
+	for _, f := range c.stack {
+		for i := range f.loops {
+			f.loops[i].dirty = true
+		}
+	}
+	return n
 }
 
 // ---------------- config helpers ----------------
@@ -351,6 +364,11 @@ func (e *Engine) mergeInto(a, b *Config) {
 	cond := b.g // under b.g take b's values (guards are disjoint)
 	for i, fa := range a.stack {
 		fb := b.stack[i]
+		for j := range fa.loops {
+			if j < len(fb.loops) && fb.loops[j].dirty {
+				fa.loops[j].dirty = true
+			}
+		}
 		for k, vb := range fb.regs {
 			va, ok := fa.regs[k]
 			if !ok {
@@ -755,8 +773,13 @@ func (e *Engine) jump(c *Config, f *Frame, to *ssa.BasicBlock) bool {
 	}
 	if _, isHeader := li.body[to]; isHeader {
 		if len(f.loops) > 0 && f.loops[len(f.loops)-1].h == to && li.isBack[[2]int{from.Index, to.Index}] {
-			f.loops[len(f.loops)-1].iter++
-			f.loops[len(f.loops)-1].unw++
+			lc := &f.loops[len(f.loops)-1]
+			lc.iter++
+			lc.unw++
+			if lc.dirty {
+				lc.epoch++
+				lc.dirty = false
+			}
 			if e.backEdgeFeas && !e.feasible(c.g) {
 				c.g = TS.False
 				return false
@@ -774,6 +797,7 @@ func (e *Engine) jump(c *Config, f *Frame, to *ssa.BasicBlock) bool {
 	}
 	f.blk = to
 	f.idx = len(phis)
+	f.opTag = ""
 	return true
 }
 
